@@ -194,6 +194,44 @@ extern "C" void harness()
 	vf_end();
 }
 
+#elif CLASS == 5
+// ----------------------------------------------------------------------------------------------- ordered queue, Event type whose comparison throws
+// EventQueue with the OrderedQueueList policy and the default comparator (orders by event): the Event's operator< is "a comparison of a user type".
+// enqueue has the strong guarantee: when it throws, the queue holds exactly the events it held before, still in order.
+struct FKey {
+	int v; uint32_t magic;
+	explicit FKey(int x) : v(x), magic(0x4E7u) {}
+	FKey() : v(0), magic(0x4E7u) {}
+	FKey(const FKey & o) : v(o.v), magic(0x4E7u) { fault_point(6); if(o.magic != 0x4E7u) ++g_bad; }
+	FKey & operator=(const FKey & o) { fault_point(6); if(o.magic != 0x4E7u || magic != 0x4E7u) ++g_bad; v = o.v; return *this; }
+	~FKey() { if(magic != 0x4E7u) ++g_bad; magic = 0xDEADu; }
+	bool operator<(const FKey & o) const { fault_point(7); return v < o.v; }
+};
+template <typename K_, typename V_> using OrdMap = std::map<K_, V_>;
+template <typename Item> using OrdList = eventpp::OrderedQueueList<Item>;
+struct OPol { using Threading = VMutexOnlyThreading; template <typename K_, typename V_> using Map = OrdMap<K_, V_>; template <typename Item> using QueueList = OrdList<Item>; };
+using Q = eventpp::EventQueue<FKey, void(uint32_t), OPol>;
+extern "C" void harness()
+{
+	Q * q = new Q();
+	for(int k = 1; k <= 3; k++) q->appendListener(FKey(k), [k](uint32_t x) { g_tr.add((uint32_t)k, x, 0); });
+	// 0..2 events pending, keys out of order
+	int n0 = (int)vf_choose(3); int keys[3]; uint32_t pay[3]; int n = 0;
+	if(n0 >= 1) { keys[n] = 3; pay[n] = 30u; q->enqueue(FKey(3), 30u); n++; }
+	if(n0 >= 2) { keys[n] = 1; pay[n] = 10u; q->enqueue(FKey(1), 10u); n++; }
+	bool failed = with_faults([&]() { q->enqueue(FKey(2), 20u); });
+	if(! failed) { keys[n] = 2; pay[n] = 20u; n++; } else vf_cover(COV_STRONG_OP_FAILED);
+	vf_assert(q->emptyQueue() == (n == 0), 480);                      // a failed enqueue leaves the queue exactly as it was ...
+	g_tr.clear(); q->process();
+	vf_assert(g_tr.n == n, 481);                                      // ... holding exactly the events it held before
+	for(int i = 0; i + 1 < g_tr.n; i++) vf_assert(g_tr.e[i].id <= g_tr.e[i + 1].id, 482);    // still in comparator order
+	for(int i = 0; i < n; i++) { bool found = false; for(int j = 0; j < g_tr.n; j++) if(g_tr.e[j].id == (uint32_t)keys[i] && g_tr.e[j].a == pay[i]) found = true; vf_assert(found, 483); }
+	vf_assert(q->emptyQueue(), 484);
+	delete q;
+	vf_assert(g_bad == 0, 485);
+	vf_end();
+}
+
 #elif CLASS == 1
 // ----------------------------------------------------------------------------------------------- event queue
 struct QCb { uint32_t id; explicit QCb(uint32_t i) : id(i) {} void operator()(const TPay & p) const { if(p.magic != 0xFA1u) ++g_bad; g_tr.add(id, p.v, 0); fault_point(2); } };
